@@ -5,9 +5,10 @@ CONSTANTS
   ByteStrings <- BytesTwo
   NumSeqs <- NumsTwo
   NewObjs <- MCNewObjs
+  InheritBound <- MCInheritBound
   MaxDepth = 5
   Starts <- StartsContent
-  Allowed = {}
+  Allowed = {"resources.shadow.deep", "fresh.aboveMax", "maxid.setObject", "counts.indirect", "delete.bookmark"}
   Emit = TRUE
   EmitMod = 2000
   EmitModV = 200
